@@ -30,8 +30,44 @@ func descString(d sif.Descriptor) string {
 	return fmt.Sprintf("%d/%d/%d/%v/%d/%d/%s/%v", d.ID(), d.GroupID(), d.DataType(), d.CreatedAt().Unix(), d.Offset(), d.Size(), d.Name(), d.ModifiedAt().Unix())
 }
 
-func readersFor(k *h.Keys, img []byte) []reader {
+// sharedCallbacks: what the callback of a Verifier shared by all goroutines may report, learnt
+// from a run alone (each report is a pure function of the signature it is about).
+type sharedCallbacks struct {
+	mu      sync.Mutex
+	learn   bool
+	allowed map[string]bool
+	bad     []string
+}
+
+func verifierOpts(k *h.Keys) []integrity.VerifierOpt {
+	return []integrity.VerifierOpt{integrity.OptVerifyWithKeyRing(keyRing(k)),
+		integrity.OptVerifyWithVerifier(k.Verifiers["ed25519"], k.Verifiers["rsa"], k.Verifiers["ecdsa"])}
+}
+
+func readersFor(k *h.Keys, img []byte, f0 *sif.FileImage, sc *sharedCallbacks) []reader {
 	si, _ := h.DecodeImage(img)
+	// one Verifier per handle, used by every goroutine: without a callback, and with one
+	// whose reports are checked against those of a run alone
+	sv, svErr := integrity.NewVerifier(f0, verifierOpts(k)...)
+	sv2, sv2Err := integrity.NewVerifier(f0, append(verifierOpts(k), integrity.OptVerifyCallback(func(r integrity.VerifyResult) bool {
+		var ks []string
+		for _, key := range r.Keys() {
+			ks = append(ks, fmt.Sprintf("%T", key))
+		}
+		fp := ""
+		if e := r.Entity(); e != nil {
+			fp = fmt.Sprintf("%x", e.PrimaryKey.Fingerprint)
+		}
+		line := fmt.Sprintf("sig %d verified %d keys %v entity %s err=%v", r.Signature().ID(), len(r.Verified()), ks, fp, r.Error())
+		sc.mu.Lock()
+		if sc.learn {
+			sc.allowed[line] = true
+		} else if !sc.allowed[line] {
+			sc.bad = append(sc.bad, line)
+		}
+		sc.mu.Unlock()
+		return false
+	}))...)
 	var ids []uint32
 	groups := map[uint32]bool{}
 	for _, d := range si.Descs {
@@ -81,9 +117,65 @@ func readersFor(k *h.Keys, img []byte) []reader {
 			return fmt.Sprintf("%x %v %x %v %v %s", a, e1, b, e2, e3, sb.String())
 		}},
 	}
+	rs = append(rs,
+		reader{"one verifier shared by all callers", func(f *sif.FileImage) string {
+			if svErr != nil {
+				return "new: " + svErr.Error()
+			}
+			e := sv.Verify()
+			a, e1 := sv.AnySignedBy()
+			b, e2 := sv.AllSignedBy()
+			return fmt.Sprintf("%v %x %v %x %v", e, a, e1, b, e2)
+		}},
+		reader{"one verifier with a callback shared by all callers", func(f *sif.FileImage) string {
+			if sv2Err != nil {
+				return "new: " + sv2Err.Error()
+			}
+			e := sv2.Verify()
+			sc.mu.Lock()
+			bad := fmt.Sprint(sc.bad)
+			sc.mu.Unlock()
+			return fmt.Sprintf("%v unexpected reports: %s", e, bad)
+		}},
+		reader{"partition type queries", func(f *sif.FileImage) string {
+			var sb strings.Builder
+			for _, pt := range []sif.PartType{0, sif.PartSystem, sif.PartPrimSys, sif.PartData, sif.PartOverlay} {
+				ds, err := f.GetDescriptors(sif.WithPartitionType(pt))
+				d, err1 := f.GetDescriptor(sif.WithPartitionType(pt))
+				fmt.Fprintf(&sb, "%d:%d,%v,%d,%v;", pt, len(ds), err, d.ID(), err1)
+			}
+			return sb.String()
+		}},
+		reader{"link and group selectors", func(f *sif.FileImage) string {
+			var sb strings.Builder
+			for _, n := range []uint32{1, 2, 3} {
+				a, e1 := f.GetDescriptors(sif.WithLinkedID(n))
+				b, e2 := f.GetDescriptors(sif.WithLinkedGroupID(n))
+				c, e3 := f.GetDescriptors(sif.WithGroupID(n), sif.WithDataType(sif.DataGeneric))
+				fmt.Fprintf(&sb, "%d:%d,%v,%d,%v,%d,%v;", n, len(a), e1, len(b), e2, len(c), e3)
+			}
+			u, e4 := f.GetDescriptors(sif.WithNoGroup())
+			fmt.Fprintf(&sb, "nogroup:%d,%v", len(u), e4)
+			return sb.String()
+		}},
+	)
 	for _, id := range ids {
 		id := id
 		rs = append(rs,
+			reader{fmt.Sprintf("type-specific metadata of object %d", id), func(f *sif.FileImage) string {
+				d, err := f.GetDescriptor(sif.WithID(id))
+				if err != nil {
+					return err.Error()
+				}
+				fs, pt, arch, e1 := d.PartitionMetadata()
+				ht, fp, e2 := d.SignatureMetadata()
+				ft, mt, e3 := d.CryptoMessageMetadata()
+				sf, e4 := d.SBOMMetadata()
+				dg, e5 := d.OCIBlobDigest()
+				var md rawBytes
+				e6 := d.GetMetadata(&md)
+				return fmt.Sprintf("%v %v %v %v|%v %x %v|%v %v %v|%v %v|%v %v|%x %v", fs, pt, arch, e1, ht, fp, e2, ft, mt, e3, sf, e4, dg, e5, []byte(md), e6)
+			}},
 			reader{fmt.Sprintf("content of object %d", id), func(f *sif.FileImage) string {
 				d, err := f.GetDescriptor(sif.WithID(id))
 				if err != nil {
@@ -120,6 +212,22 @@ func readersFor(k *h.Keys, img []byte) []reader {
 	}
 	return rs
 }
+
+// guarded runs a reader and turns a panic inside the library into a result string, so that a
+// concurrent call that crashes is reported as a call that did not answer as it does alone.
+func guarded(rd reader, f *sif.FileImage) (res string) {
+	defer func() {
+		if e := recover(); e != nil {
+			res = fmt.Sprintf("PANIC: %v", e)
+		}
+	}()
+	return rd.run(f)
+}
+
+// rawBytes receives the metadata field as it is stored.
+type rawBytes []byte
+
+func (m *rawBytes) UnmarshalBinary(b []byte) error { *m = bytes.Clone(b); return nil }
 
 func keyRing(k *h.Keys) openpgp.EntityList { return openpgp.EntityList(k.Entities) }
 
@@ -159,17 +267,20 @@ func runConcurrent(seed uint64, n int, out, tmp string) summary {
 			if err != nil {
 				panic(err)
 			}
-			rs := readersFor(k, img)
+			sc := &sharedCallbacks{learn: true, allowed: map[string]bool{}}
+			rs := readersFor(k, img, f, sc)
 			alone := make([]string, len(rs))
 			for j, rd := range rs {
 				alone[j] = rd.run(f)
 			}
+			sc.learn = false
 			for _, procs := range []int{1, 2, 4, 16} {
 				// a freshly loaded handle: its first uses are the concurrent ones
 				f, err := sif.LoadContainer(rw, sif.OptLoadWithCloseOnUnload(false))
 				if err != nil {
 					panic(err)
 				}
+				rs := readersFor(k, img, f, sc) // the shared verifiers belong to this handle
 				old := runtime.GOMAXPROCS(procs)
 				var wg sync.WaitGroup
 				var mu sync.Mutex
@@ -180,11 +291,11 @@ func runConcurrent(seed uint64, n int, out, tmp string) summary {
 						defer wg.Done()
 						for c := 0; c < 20; c++ {
 							j := gr.Intn(len(rs))
-							got := rs[j].run(f)
+							got := guarded(rs[j], f)
 							if got != alone[j] {
 								mu.Lock()
 								s.Oracle = append(s.Oracle, h.Finding{Property: "C18", Case: i,
-									What:  fmt.Sprintf("%s returned a different result when run concurrently (GOMAXPROCS=%d, %s backend)", rs[j].name, procs, backend),
+									What:  fmt.Sprintf("%s returned a different result when run concurrently (GOMAXPROCS=%d, %s backend): %.160q, alone %.160q", rs[j].name, procs, backend, got, alone[j]),
 									Input: info.Desc})
 								mu.Unlock()
 							}
